@@ -57,7 +57,8 @@ VARIABLES
 impl  == <<win, dacc, cache, pend, ld, obs>>
 ghost == <<gp, docs>>
 vars  == <<impl, ghost, hist>>
-view  == <<impl, ghost>>
+view  == <<impl, ghost, Len(hist)>>   \* the step count stays in the view: with the Len(hist) < MaxSteps guard the bounded
+                                      \* search is then exact and its state count deterministic (not "whichever path came first")
 
 Live(p) == gp[p].ex /\ ~gp[p].del
 
